@@ -440,8 +440,13 @@ class IntegerSequence(SequenceBase):
 
     def _get_point_in_bounds(self, point):
         """Return point, or None if out of bounds."""
-        if point >= self.p_start and (
-                self.p_stop is None or point <= self.p_stop):
+        if (
+            point >= self.p_start
+            and (self.p_stop is None or point <= self.p_stop)
+            # a one-off point is not clipped to the context on construction
+            and point >= self.p_context_start
+            and (self.p_context_stop is None or point <= self.p_context_stop)
+        ):
             return point
         else:
             return None
@@ -449,9 +454,7 @@ class IntegerSequence(SequenceBase):
     def is_valid(self, point):
         """Is point on-sequence and in-bounds?"""
         return (self.is_on_sequence(point) and
-                point >= self.p_start and
-                (self.p_stop is None or
-                    point <= self.p_stop))
+                self._get_point_in_bounds(point) is not None)
 
     def get_prev_point(self, point):
         """Return the previous point < point, or None if out of bounds."""
